@@ -197,7 +197,15 @@ def gen_output_card(rng):
             npts = rng.randint(3, 18)
         pts = cards.gen_points(rng, pools, name, npts, th, plant=big) if npts else []
         obs.append([name, pts])
-    return {"theory": th, "obs": ob, "observables": obs}
+    card = {"theory": th, "obs": ob, "observables": obs}
+    sfs = [o for o in obs if not cards.is_xs(o[0])]
+    if len(sfs) >= 2 and rng.random() < 0.35:
+        # the way yadmark builds cards: the *same* kinematics list object under every structure function
+        # (PyYAML then writes anchors and aliases into the echoed card)
+        for o in sfs[1:]:
+            o[1] = copy.deepcopy(sfs[0][1])
+        card["share_kinematics"] = True
+    return card
 
 
 def gen_io_faults(rng, opkind, enabled, rate, max_faults=1):
@@ -518,6 +526,14 @@ class Execution:
             th = copy.deepcopy(c["theory"])
             ob = copy.deepcopy(c["obs"])
             ob["observables"] = {n: [cards.point_dict(p) for p in pts] for n, pts in c["observables"]}
+            if c.get("share_kinematics"):
+                shared = None
+                for n in list(ob["observables"]):
+                    if not cards.is_xs(n):
+                        if shared is None:
+                            shared = ob["observables"][n]
+                        else:
+                            ob["observables"][n] = shared
             # producing the output is not under test here (fault-free, scheduler quiet); the
             # enumeration tier re-executes one history hundreds of times, so the produced object
             # is memoised per card and handed out as a deep copy
